@@ -27,6 +27,7 @@ type c03Event struct {
 	AtWrite int    `json:"after_write"` // 0: right after the filter of the first socket is installed
 	Frame   []byte `json:"frame"`
 	Note    string `json:"note"`
+	DelayMs int    `json:"delay_ms,omitempty"` // real sockets only: the frame arrives this long after its trigger
 }
 
 type c03Case struct {
